@@ -45,9 +45,19 @@ theorem source_shape_pinned :
 /-- Tie to the source (re-probed on every run): the real `_set_display`, run on an entity and on a source file of
     the probe project for every metadata list of up to two words (three for `protected` / `none` / unknown) in
     either letter case and three inherited lists, leaves exactly the list `setDisplay` computes - and it is the
-    inherited list *object* exactly when the model says the entity inherits (`setDisplayInherits`). -/
+    inherited list *object* exactly when the model says the entity inherits (`setDisplayInherits`).
+    Round 6: the table is the *set* of outcomes over one real object of every class of the probe project
+    (`setDisplaySubjects`: procedures, types, bindings, units, the file, ...) with `meta.proc_internals` off and on; that
+    it still has the 348 rows of one class says that `display` depends on neither - `display` and `proc_internals` are
+    independent options of the property statement (a procedure whose `proc_internals` is off does *not* get an empty
+    display list that its own `display:` metadata could then replace). -/
 theorem set_display_probe_matches_model :
-    C05.setDisplayProbe.all setDisplayRowOk = true ∧ C05.setDisplayProbe.length = 348 := by decide +kernel
+    C05.setDisplayProbe.all setDisplayRowOk = true ∧ C05.setDisplayProbe.length = 348
+    ∧ (["FortranSubroutine", "FortranFunction", "FortranModuleProcedureImplementation", "FortranVariable",
+        "FortranType", "FortranBoundProcedure", "FortranInterface", "FortranModule", "FortranSubmodule",
+        "FortranProgram", "FortranBlockData", "FortranSourceFile"].all fun c =>
+          C05.setDisplaySubjects.contains (c, false) && C05.setDisplaySubjects.contains (c, true)) = true := by
+  decide +kernel
 
 /-- Tie to the source (re-probed on every run): all classes share one `_should_display` / `filter_display`, and its
     truth table over `hide_undoc` x documented x permission x every subset of {public, protected, private} is
